@@ -158,3 +158,103 @@ print("OK")
     if "NOFALLBACK" in p.stdout:
         return {}
     return {"aes128": outdir / "aes128.pdf", "aes256": outdir / "aes256.pdf"}
+
+
+# --------------------------------------------------------------------------- failing archives (seed A2)
+def _7z_num(v: int) -> bytes:
+    for i in range(8):
+        if v < (1 << (7 * (i + 1))):
+            first = ((0xFF << (8 - i)) & 0xFF) | (v >> (8 * i))
+            return bytes([first]) + (v & ((1 << (8 * i)) - 1)).to_bytes(i, "little")
+    return b"\xff" + v.to_bytes(8, "little")
+
+
+def make_7z(members, damage_folder=None) -> bytes:
+    """Minimal 7z writer: one folder (LZMA2, 64 KiB dictionary) per member, plain header.
+    damage_folder = i: the packed stream of folder i starts with an invalid LZMA2 control byte, so the
+    header parses, the archive is not encrypted, the folders before i decode, folder i does not."""
+    import lzma
+    import zlib
+    filt = [{"id": lzma.FILTER_LZMA2, "dict_size": 1 << 16}]
+    packed = [lzma.compress(d, format=lzma.FORMAT_RAW, filters=filt) for _, d in members]
+    if damage_folder is not None:
+        blob = bytearray(packed[damage_folder])
+        blob[0] = 0x03
+        packed[damage_folder] = bytes(blob)
+    n = len(members)
+    h = bytearray(b"\x01\x04")                                   # Header, MainStreamsInfo
+    h += b"\x06" + _7z_num(0) + _7z_num(n)                       # PackInfo
+    h += b"\x09" + b"".join(_7z_num(len(p)) for p in packed) + b"\x00"
+    h += b"\x07\x0b" + _7z_num(n) + b"\x00"                      # UnpackInfo / Folder
+    for _ in members:
+        h += _7z_num(1) + bytes([0x21]) + b"\x21" + _7z_num(1) + b"\x08"     # one coder: LZMA2, 1 prop byte
+    h += b"\x0c" + b"".join(_7z_num(len(d)) for _, d in members) + b"\x00"
+    h += b"\x08\x00" + b"\x00"                                   # SubStreamsInfo (1 per folder), end streams
+    names = b"\x00" + b"".join(nm.encode("utf-16-le") + b"\x00\x00" for nm, _ in members)
+    h += b"\x05" + _7z_num(n) + b"\x11" + _7z_num(len(names)) + names + b"\x00" + b"\x00"
+    body = b"".join(packed)
+    start = struct.pack("<QQI", len(body), len(h), zlib.crc32(bytes(h)) & 0xFFFFFFFF)
+    return b"7z\xbc\xaf\x27\x1c\x00\x04" + struct.pack("<I", zlib.crc32(start) & 0xFFFFFFFF) + start + body + bytes(h)
+
+
+def archive_docs() -> dict:
+    """name -> bytes: a healthy two-folder 7z, the same with the second folder damaged (extractall fails after
+    the first folder's real bytes have reached the temp directory), a tar.gz cut inside the compressed stream,
+    a zip whose second member's deflate data is damaged"""
+    import gzip
+    import io
+    import tarfile
+    import zipfile
+    members = [("notes.txt", b"first member, stored in folder 0\n" * 6),
+               ("report.txt", b"second member, stored in folder 1\n" * 6)]
+    out = {"two-folders.7z": make_7z(members), "damaged-folder2.7z": make_7z(members, damage_folder=1)}
+    buf = io.BytesIO()
+    with tarfile.open(fileobj=buf, mode="w") as tf:
+        for nm, data in members + [("big.txt", bytes(range(256)) * 64)]:
+            ti = tarfile.TarInfo(nm)
+            ti.size = len(data)
+            tf.addfile(ti, io.BytesIO(data))
+    gz = gzip.compress(buf.getvalue(), mtime=0)
+    out["truncated.tar.gz"] = gz[: len(gz) * 2 // 3]
+    zb = io.BytesIO()
+    with zipfile.ZipFile(zb, "w", zipfile.ZIP_DEFLATED) as zf:
+        for nm, data in members:
+            zi = zipfile.ZipInfo(nm, date_time=(2020, 1, 1, 0, 0, 0))
+            zf.writestr(zi, data * 20, compress_type=zipfile.ZIP_DEFLATED)
+    z = bytearray(zb.getvalue())
+    off = z.find(b"report.txt") + len(b"report.txt") + 4          # inside the second member's deflate stream
+    for i in range(off, off + 6):
+        z[i] ^= 0xFF
+    out["damaged-member.zip"] = bytes(z)
+    return out
+
+
+# --------------------------------------------------------------------------- stored extractions (seed B2)
+STORED = {"html": "html/sample.html", "txt": "plain_text/plain.txt", "pdf": "pdf/multi_table.pdf",
+          "docx": "modern_ms/headings.docx", "eml": "mails/basic_email.eml"}
+
+
+def make_stored_json(outdir: Path, res_root: Path) -> dict:
+    """{tag: path of a JSON file holding to_json() of the first result}: "as written by an earlier run",
+    produced in a throw-away subprocess so that this process's type registry is untouched"""
+    code = r"""
+import json, sys, logging
+logging.disable(logging.CRITICAL)
+import sharepoint2text
+out = sys.argv[1]
+for tag, src in zip(sys.argv[2::2], sys.argv[3::2]):
+    res = next(iter(sharepoint2text.read_file(src)))
+    with open(f"{out}/stored-{tag}.json", "w") as f:
+        json.dump(res.to_json(), f)
+print("OK")
+"""
+    outdir.mkdir(parents=True, exist_ok=True)
+    args = []
+    for tag, rel in sorted(STORED.items()):
+        if not (res_root / rel).exists():
+            raise MachineryError(f"fixture vanished: {rel}")
+        args += [tag, str(res_root / rel)]
+    p = subprocess.run([PY, "-c", code, str(outdir), *args], env=child_env(), capture_output=True, text=True)
+    if p.returncode != 0 or "OK" not in p.stdout:
+        raise MachineryError("cannot produce stored extractions:\n" + p.stderr[-1500:])
+    return {tag: outdir / f"stored-{tag}.json" for tag in STORED}
